@@ -221,8 +221,55 @@ def body_item(arg):
     return acc
 
 
+def mgmt_item(arg):
+    """Well-formed but conflicting management requests: the operation alphabet of C17, every ordered pair, issued by
+    the media user; the answer of the request itself must not be a 5xx."""
+    first, tier = arg
+    from props import c17
+    env = c17.Env.get()
+    acc = core.Acc()
+    table = {n: fn for n, _, fn in c17.ACTIONS}
+
+    def issue(name):
+        W.set_now(c17.NOW)
+        I = env.lookup()
+        T = env.tokens()
+        r = table[name](env, I, T)
+        acc.count('transitions')
+        acc.count('evaluations')
+        return r
+
+    def verdict(seq, r):
+        if r is None:
+            return
+        if r.unbounded:
+            acc.violation('C16|mgmt|UNBOUNDED', f'management history {seq}: no answer within the watchdog',
+                          {'kind': 'mgmt', 'seq': seq})
+        elif r.status >= 500 or r.exc is not None:
+            sig = W.crash_signature(r.exc) if r.exc else f'status-{r.status}-without-exception'
+            acc.violation(f'C16|mgmt|{sig}', f'management history {seq}: the last request answered {r.status} {sig}',
+                          {'kind': 'mgmt', 'seq': seq})
+        else:
+            acc.outcome(('mgmt', r.status))
+            if 400 <= r.status < 500:
+                acc.nontriv(('mgmt', tuple(seq)))
+    env.w.restore(env.snap0)
+    env.rc.cookies_restore(env.cookies)
+    verdict([first], issue(first))
+    snap, cookies = env.w.snapshot(), env.rc.cookies_snapshot()
+    for second in table:
+        env.w.restore(snap)
+        env.rc.cookies_restore(cookies)
+        acc.state(('mgmt', first, second))
+        verdict([first, second], issue(second))
+    env.w.restore(env.snap0)
+    return acc
+
+
 def _dispatch(item):
     kind, arg = item
+    if kind == 'mgmt':
+        return mgmt_item(arg)
     if kind == 'hostile':
         return hostile_item(arg)
     if kind == 'pair':
@@ -259,6 +306,9 @@ def run(ctx):
     for ch in core.chunks(routes if not ctx.quick else routes[::3], 6):
         items.append(('header', (ch, ctx.tier)))
     items.append(('body', ctx.tier))
+    from props import c17
+    for n, _, _ in c17.ACTIONS:
+        items.append(('mgmt', (n, ctx.tier)))
     extra = {}
     from props import c16_mp4, c16_inject
     for mod in (c16_mp4, c16_inject):
@@ -288,6 +338,21 @@ def replay(record):
     elif k == 'body':
         r = w.request('POST', record['url'], json_body=record['body'])
         judge(acc, 'json', f"POST {record['url']} {repr(record['body'])[:60]}", None, r, record)
+    elif k == 'mgmt':
+        from props import c17
+        env = c17.Env.get()
+        table = {n: fn for n, _, fn in c17.ACTIONS}
+        env.w.restore(env.snap0)
+        env.rc.cookies_restore(env.cookies)
+        out = []
+        for i, name in enumerate(record['seq']):
+            W.set_now(c17.NOW)
+            r = table[name](env, env.lookup(), env.tokens())
+            if i == len(record['seq']) - 1 and r is not None and (r.status >= 500 or r.exc is not None):
+                sig = W.crash_signature(r.exc) if r.exc else f'status-{r.status}-without-exception'
+                out.append((f'C16|mgmt|{sig}', f'{record["seq"]}: {r.status}'))
+        env.w.restore(env.snap0)
+        return out
     elif k and k.startswith('mp4'):
         from props import c16_mp4
         return c16_mp4.replay(record)
